@@ -12,6 +12,7 @@ if os.path.exists('checks.d/_meta.json'):
     checks.update(json.load(open('checks.d/_meta.json')))
 props = [json.loads(l) for l in open('properties.jsonl')]
 na_reasons = checks.get('_not_applicable', {})
+ready = set(json.load(open('checks.d/_ready.json')))
 out = {
     "version": 1,
     "setup_cmd": "./vcheck --setup",
@@ -38,7 +39,7 @@ for e in out["engines"]:
 for p in props:
     i = p['id']
     c = checks.get(i)
-    if not c or c.get('disabled'):
+    if not c or c.get('disabled') or i not in ready:
         out["not_applicable"].append({"property_id": i, "reason": na_reasons.get(i, "check not built yet in this session (work in progress; design in DESIGN.md)")})
         continue
     out["checks"].append({
